@@ -157,7 +157,8 @@ CHECKS = {
         "expression; inputs come from the whole-program generator, from the same programs with "
         "unsupported / illegally placed constructs injected at random positions (inputs the "
         "converter may accept or reject), and from ~550 standard-library modules with unsupported "
-        "statements stripped. Rejections are counted, never failures. Nothing is executed.",
+        "statements stripped; plus the pool, the G-NEST interaction sweep (about 20 000 programs) and the "
+        "while-walrus family (refused or well-formed). Rejections are counted, never failures. Nothing is executed.",
         "RecursionError/MemoryError when compiling a huge output is treated as a size limit (C17).",
         "DESIGN.md section 3, C02"),
     "C08": (
@@ -170,7 +171,9 @@ CHECKS = {
         "target receives a second star. convert_code_string must raise for all 8 (fixed base, "
         "thorough) or 2 rotating configurations. Exhaustive per base program; bases are sampled. "
         "Effect-survival stage for the last sentence: 29 inert-looking expression statements with a run-time "
-        "effect x 14 placements x 8 configurations must keep their trace and final exception type.",
+        "effect x 14 placements x 8 configurations must keep their trace and final exception type; the "
+        "while-walrus family must be refused or equivalent. Host dimension: injections converted by 3.10/3.11/3.13; "
+        "the base converts first (state of accepted conversions).",
         "Any Exception is a rejection; ast.unparse is trusted to print the mutated module (re-parsed).",
         "DESIGN.md section 3, C08"),
     "C10": (
